@@ -117,7 +117,7 @@ Play ==
                ELSE LET op == c.ops[oi]
                         hh == Host(P)!EvalEnd(h, ev.saved)
                         val == h.m.ret IN
-                    IF val # op.val THEN Fail("Host.eval:value", [val |-> val, text |-> ev.acc])
+                    IF ~(val.t = op.val.t /\ val = op.val) THEN Fail("Host.eval:value", [val |-> val, text |-> ev.acc])
                     ELSE IF ev.acc # op.ftext THEN Fail("Host.eval:text", [val |-> val, text |-> ev.acc])
                     ELSE IF ~Host(P)!NotesWithin(NotesOf(op), ev.notes) THEN Fail("Host.eval:notifications", ev.notes)
                     ELSE DoneQ(P, op, hh, "ok")
